@@ -5,6 +5,7 @@ Property theorems only; helper lemmas live in Proofs/Reindex.lean.
 a statement about `triangles` is therefore a statement about corner positions *and* every attached datum.
 -/
 import TrimeshVerif.Proofs.Reindex
+import TrimeshVerif.Proofs.ReindexInt
 import TrimeshVerif.Generated.C07Table
 namespace TV.C07
 open TV TV.Reindex
@@ -46,6 +47,28 @@ theorem C07_update_vertices_bool (m : Mesh α β) (mask : List Bool) (hlen : mas
 theorem C07_update_vertices_dropped_witness :
     let m : Mesh Nat Unit := { V := [10, 11, 12, 13], F := [(1, 2, 3)], FA := [()] }
     triangles (updateVerticesBool m [true, false, true, true]) ≠ triangles m := by
+  decide
+
+/-- **vertex selection by integer indices** (`update_vertices(mask, inverse)` with an index mask, kept vertices in the
+    order given - what `unmerge_vertices` and `merge_vertices` pass): if every kept index exists and the inverse sends
+    every vertex some face uses to a position holding that vertex, every triangle is unchanged, and the new vertex
+    array is the selection in mask order -/
+theorem C07_update_vertices_int (m : Mesh α β) (keep inverse : List Nat)
+    (hk : ∀ k ∈ keep, k < m.V.length)
+    (hinv : ∀ f ∈ m.F, keep[inverse.getD f.1 0]? = some f.1 ∧ keep[inverse.getD f.2.1 0]? = some f.2.1 ∧
+      keep[inverse.getD f.2.2 0]? = some f.2.2) :
+    triangles (updateVerticesInv m keep inverse) = triangles m ∧
+    (updateVerticesInv m keep inverse).V = keep.filterMap (m.V[·]?) ∧
+    (updateVerticesInv m keep inverse).FA = m.FA :=
+  updateVerticesInv_spec m keep inverse hk hinv
+
+/-- the order of an index mask matters: `unmerge_vertices` selects the corners in face order and then numbers the
+    faces `0, 1, 2, …`; the same selection taken as a set (in ascending order) moves the corners of a face whose
+    indices are not ascending -/
+theorem C07_index_mask_order_witness :
+    let m : Mesh Nat Unit := { V := [10, 11, 12], F := [(2, 0, 1)], FA := [()] }
+    triangles (updateVerticesInv m [2, 0, 1] [1, 2, 0]) = triangles m ∧
+    triangles ({ m with V := [0, 1, 2].filterMap (m.V[·]?), F := [(0, 1, 2)] } : Mesh Nat Unit) ≠ triangles m := by
   decide
 
 /-- dropping unreferenced vertices never moves a triangle -/
